@@ -55,11 +55,17 @@ def prepare(scratch, units, tier="quick"):
                     edits.append("extract the body of %s :: %s as `%s` with substitutions %s (signature replaced)"
                                  % (ex["file"], " :: ".join(ex["item"]), ex["as_fn"], ex.get("subst", {})))
                     continue
+                if "field" in ex:
+                    ex["let"] = ex["field"] + ":"   # reported as a field initialiser below
                 if "let" in ex:
-                    # statement slice: the initialiser expression of one `let` of the fn body, wrapped
-                    # into a function whose parameters are the free names of that expression
+                    # statement slice: the initialiser expression of one `let` of the fn body (or of one field
+                    # of a struct literal in it), wrapped into a function whose parameters are the free names
+                    # of that expression
                     try:
-                        expr = rs.slice_let(text, it, ex["let"], ex.get("nth", 0), ex.get("count"))
+                        if "field" in ex:
+                            expr = rs.slice_field(text, it, ex["field"], ex.get("nth", 0), ex.get("count"))
+                        else:
+                            expr = rs.slice_let(text, it, ex["let"], ex.get("nth", 0), ex.get("count"))
                     except rs.ScanError as e:
                         raise Undecided("lost anchor: `let %s` in %s :: %s (%s)" % (ex["let"], ex["file"], ex["item"], e))
                     for a, b in ex.get("subst", {}).items():
@@ -74,6 +80,10 @@ def prepare(scratch, units, tier="quick"):
                 code = text[it.start:it.end]
                 if it.kind in ("struct", "enum"):
                     code = text[it.attr_end:it.end]   # derives / cfg_attr of the data type are dropped
+                    if ex.get("derive"):
+                        code = "#[derive(%s)]\n%s" % (ex["derive"], code)
+                if ex.get("impl"):
+                    code = "impl %s {\n%s\n}" % (ex["impl"], code)   # a method: re-wrapped in its impl header
                 parts.append("// extracted verbatim from %s :: %s\n%s\n" % (ex["file"], " :: ".join(ex["item"]), code))
                 edits.append("extract verbatim %s :: %s into a stand-alone crate (enclosing item and rest of file dropped)"
                              % (ex["file"], " :: ".join(ex["item"])))
